@@ -374,7 +374,7 @@ func run(c *hc.Ctx) error {
 		}
 		line := fmt.Sprintf("honest keys=%s cdc=%d temp=%d exp=%d nonce=%s newnonce=%s b=%s sid=%d sfp=%d sdc=%d snonce=%s pq=%s prime=%s adraws=%s time=%d primes=%s factor=%s:%s:%s",
 			u64s(o.keys), x.dc, b2i(x.temp), x.expires, f1[1], hc.Hex(dec.NewNonce), o.b, o.sid, o.sfp, x.dc, f1[2], f1[3],
-			o.prime, bigs(o.adraws), dec.Inner.ServerTime, c09x.Primes(o.prime, c09x.Half(o.prime)), f1[3], f2[3], f2[4])
+			o.prime, bigs(o.adraws), dec.Inner.ServerTime, c09x.Primes(o.prime, c09x.Half(o.prime), c09x.BigOf(f1[3])), f1[3], f2[3], f2[4])
 		lines = append(lines, line)
 		inputs = append(inputs, in)
 		wants = append(wants, append(append([]string{}, obs[:]...), c09x.ClientResult(o.cres, o.cerr), c09x.ServerResult(o.sres, o.serr)))
